@@ -42,6 +42,8 @@ SENTINEL_A, SENTINEL_B = 0xA55A, 0x5AA5
 GLOBAL_TIME = 0x0102030405060708
 OFFSETS = (0, 1, 23)
 CONTEXTS = ("o0", "o1", "o23", "dgram", "nested", "list1", "list2")
+CONTEXT_EXTRA = {"dgram": frozenset(["varlenH", "Q"]), "nested": frozenset(["H", "payload"]),
+                 "list1": frozenset(["H", "payload", "payload-list"]), "list2": frozenset(["H", "payload", "payload-list"])}
 CONTEXT_KIND = {"o0": "top", "o1": "embedded", "o23": "embedded", "dgram": "embedded", "nested": "nested",
                 "list1": "list", "list2": "list", "list0": "list", "list255": "list"}
 
@@ -77,11 +79,12 @@ def wrappers(spec: dom.ClassSpec) -> tuple[type, type]:
 class Finding:
     """One failed sub-check of one instance."""
 
-    __slots__ = ("oracle", "cls", "detail", "fmt", "what", "cands")
+    __slots__ = ("oracle", "cls", "detail", "fmt", "what", "cands", "extra")
 
     def __init__(self, oracle: str, cls: str, detail: str, fmt: str | None, what: str) -> None:
         self.oracle, self.cls, self.detail, self.fmt, self.what = oracle, cls, detail, fmt, what
         self.cands: frozenset = frozenset()   # formats whose packer could be responsible (filled in by evaluate)
+        self.extra: frozenset = frozenset()   # formats of the surrounding fields of the position it was found in
 
     def ident(self) -> tuple:
         return (self.oracle, self.cls, self.detail)
@@ -265,6 +268,7 @@ def evaluate(spec: dom.ClassSpec, descs: list, contexts: tuple = CONTEXTS) -> tu
                 found.append(f)
             elif f.ident() not in top_idents:
                 f.detail = f"{f.detail}@{kind}" if f.detail else f"@{kind}"
+                f.extra = CONTEXT_EXTRA.get(name, frozenset())
                 found.append(f)
     _attribute(spec, found)
     return found, info
@@ -310,6 +314,8 @@ def _attribute(spec: dom.ClassSpec, found: list) -> None:
                 if attr in field.names:
                     f.cands = format_names(spec.ref_format_list[:i + 1])
                     break
+    for f in found:
+        f.cands = f.cands | f.extra
 
 
 def evaluate_class_once(spec: dom.ClassSpec) -> tuple[list, int]:
